@@ -272,12 +272,13 @@ type vf15Case struct {
 	Trailing   string // "", or what follows the real config in the list: a second usable config (key rotation) / an unknown version
 	RetryCount int    // reject: number of configs the server offers for retry (>= 1)
 	OlderKeys  int    // accept: number of other keys (other config ids / key pairs) the server lists BEFORE the matching one
+	Prebuild   int    // number of explicit BuildHandshakeState calls before Handshake (0-2): the hello is marshalled and sealed again each time
 	SpecPath   string // "" = predefined ID; "custom" = HelloCustom + ApplyPreset(UTLSIdToSpec(ID)); "custom-sni" = the same with SNIExtension.ServerName already filled in by the caller
 }
 
 func (c vf15Case) String() string {
-	return fmt.Sprintf("%s/%s id=%d suites=%v maxname=%d public=%q secret=%q leading=%q trailing=%q retry=%d olderkeys=%d specpath=%q seed=%d",
-		c.Ident.Name, c.Mode, c.ConfigID, c.Suites, c.MaxNameLen, c.Public, c.Secret, c.Leading, c.Trailing, c.RetryCount, c.OlderKeys, c.SpecPath, c.Seed)
+	return fmt.Sprintf("%s/%s id=%d suites=%v maxname=%d public=%q secret=%q leading=%q trailing=%q retry=%d olderkeys=%d specpath=%q prebuild=%d seed=%d",
+		c.Ident.Name, c.Mode, c.ConfigID, c.Suites, c.MaxNameLen, c.Public, c.Secret, c.Leading, c.Trailing, c.RetryCount, c.OlderKeys, c.SpecPath, c.Prebuild, c.Seed)
 }
 
 const vf15Alnum = "abcdefghijklmnopqrstuvwxyz0123456789"
@@ -343,6 +344,7 @@ func vf15GenCase(rt *rapid.T, idents []vf15Ident) vf15Case {
 	}
 	c.RetryCount = rapid.IntRange(1, 2).Draw(rt, "retryCount")
 	c.OlderKeys = rapid.IntRange(0, 3).Draw(rt, "olderServerKeys")
+	c.Prebuild = rapid.SampledFrom([]int{0, 0, 1, 2}).Draw(rt, "prebuild")
 	if !c.Ident.Golang {
 		c.SpecPath = rapid.SampledFrom([]string{"", "", "custom", "custom-sni"}).Draw(rt, "specPath")
 	}
@@ -540,6 +542,15 @@ func vf15Run(st *vfStats, t vfFataler, c vf15Case) {
 		st.Class("spec-path:" + c.SpecPath)
 	}
 	defer pair.Close()
+	for i := 0; i < c.Prebuild; i++ {
+		// documented: the hello may be built (and inspected) before Handshake; with ECH every build seals a fresh inner hello
+		if err := pair.Cli.BuildHandshakeState(); err != nil {
+			fail("BuildHandshakeState before Handshake: %v", err)
+		}
+	}
+	if c.Prebuild > 0 {
+		st.Class(fmt.Sprintf("prebuilt:%d", c.Prebuild))
+	}
 	res.cerr, res.serr = pair.Handshake()
 	written := pair.CP.Written()
 
@@ -747,7 +758,7 @@ func vf15DirectedCase(id vf15Ident, mode string, n int) vf15Case {
 		Ident: id, Mode: mode, Seed: uint64(1000 + n),
 		Secret: fmt.Sprintf("hidden%02dservicename.c15.test", n), SecretRand: fmt.Sprintf("hidden%02dservicename", n),
 		Public: "public.c15.test", ConfigID: uint8(17 * n), Suites: []vf15Suite{{1, 1}, {1, 2}, {1, 3}},
-		MaxNameLen: uint8(n * 37), RetryCount: 1 + n%2, OlderKeys: n % 3, SpecPath: []string{"", "custom-sni", "custom", ""}[n%4],
+		MaxNameLen: uint8(n * 37), RetryCount: 1 + n%2, OlderKeys: n % 3, SpecPath: []string{"", "custom-sni", "custom", ""}[n%4], Prebuild: []int{0, 1, 0, 2, 1}[n%5],
 	}
 }
 
